@@ -32,6 +32,9 @@ def strip_list(t):
     return t
 
 
+FULL_ = ("slice", ("const", None), ("const", None), ("const", None))
+
+
 def remove_rules(rep, prog):
     q = U + "remove_edges"
     f = need(prog, q)
@@ -66,6 +69,16 @@ def remove_rules(rep, prog):
         ok = li["iter"] == draws[0].result and len(st) == 1 and st[0].idx == ("tuple", (("sub", e, ("const", 0)), ("sub", e, ("const", 1)))) and \
             is_const(st[0].value, 0) and st[0].aug is None and list(li["init"].values()) == [("method", B, "copy", (), ())] and \
             T(summ.ret) == ("after", lid, li["changed"][0])
+    if not ok and not loops and draws:
+        # the same written without a loop: pruned[chosen[:, 0], chosen[:, 1]] = 0 (possibly guarded by `len(chosen) > 0`)
+        st = S.select("store", qname=q)
+        ch_ = draws[0].result
+        col = lambda k_: ("sub", ch_, ("tuple", (FULL_, ("const", k_))))
+        if len(st) == 1 and st[0].idx == ("tuple", (col(0), col(1))) and is_const(st[0].value, 0) and st[0].aug is None and st[0].base == ("method", B, "copy", (), ()):
+            stored = ("store", st[0].base, st[0].idx, st[0].value, None)
+            r_ = T(summ.ret)
+            guard_ok = all(npred(c_, pol_) == ("nonempty", ch_) for c_, pol_ in st[0].path[len(draws[0].path):])
+            ok = guard_ok and (r_ == stored or (r_[0] == "phi" and stored in (r_[2], r_[3]) and st[0].base in (r_[2], r_[3])))
     rep.check("RESULT.remove", ok, fwhere(f), "each drawn edge (fro, to) is cleared in a copy of the pattern, which is returned",
               "result is not `copy of the pattern with exactly the drawn entries set to 0`")
 
@@ -121,7 +134,7 @@ def add_rules(rep, prog):
     okp, why = False, "candidate list is not zip(*np.where(mask))"
     if lst[0] == "ext" and lst[1] == "zip" and len(lst[2]) == 2:
         a, b = lst[2]
-        if a[0] == "sub" and b[0] == "sub" and a[1] == b[1] and is_const(a[2], 0) and is_const(b[2], 1) and a[1][0] == "ext" and a[1][1] == "numpy.where":
+        if a[0] == "sub" and b[0] == "sub" and a[1] == b[1] and is_const(a[2], 0) and is_const(b[2], 1) and a[1][0] == "ext" and a[1][1] in ("numpy.where", "numpy.nonzero") and len(a[1][2]) == 1:
             mask = a[1][2][0]
             try:
                 good = True
